@@ -14,7 +14,7 @@ EXPLANATION = (
     "the API handler doc_drop evaluated: the store actor's drop_replica is reached for the requested document and success "
     'is reported only if it succeeded. The protect callback continues only when the list of hashes was received to its '
     'explicit end marker: a channel that merely closes (the task was aborted with the engine) aborts the collection run. '
-    '(R7) the store actor drop handler evaluated against the handle count (shared with C14.R6): a drop refused because other handles hold the document leaves their handles alone. NOT decided: byte-for-byte equality of neighbouring documents (redb trusted).'
+    '(R7) the store actor drop handler evaluated against the handle count (shared with C14.R6): a drop refused because other handles hold the document leaves their handles alone. (R8) requests naming an unknown (removed) document - set_download_policy, register_useful_peer - are refused and write nothing (the unknown-document cells of C15.R2 / C17.R2). NOT decided: byte-for-byte equality of neighbouring documents (redb trusted).'
 )
 ASSUMPTIONS = ["redb tables are identified by their key/value types", "redb range semantics trusted"]
 
@@ -593,6 +593,29 @@ def r7(ctx):
     ctx.floor("C16.R7", 4)
 
 
+def r8(ctx):
+    """"once removed, none of its ... peers, policy ... can be observed": a request that names a removed (= unknown) document is
+    refused *and writes nothing* - a row written before the refusal is committed with the next flush, because a failed
+    transaction body does not roll the shared transaction back (the unknown-document cells of C15.R2 and C17.R2)"""
+    from . import C15, C17
+    sub = type(ctx)(ctx.prop, ctx.tier, ctx.facts, ctx.cfg)
+    C15.r2(sub)
+    C17.r2(sub)
+    n = 0
+    for o in sub.obligations:
+        if "unknown-document" not in o["key"]:
+            continue
+        o = dict(o)
+        o["key"] = o["key"].replace("C15.R2", "C16.R8").replace("C17.R2", "C16.R8")
+        o["rule"] = "C16.R8"
+        ctx.obligations.append(o)
+        n += 1
+        if o["status"] != "holds":
+            ctx.violations.append(o)
+    ctx.analysed_bodies |= sub.analysed_bodies
+    ctx.floor("C16.R8", 3)
+
+
 def run(ctx):
     ctx.run_rule("C16.R1", r1)
     ctx.run_rule("C16.R2", r2)
@@ -601,3 +624,4 @@ def run(ctx):
     ctx.run_rule("C16.R5", r5)
     ctx.run_rule("C16.R6", r6)
     ctx.run_rule("C16.R7", r7)
+    ctx.run_rule("C16.R8", r8)
